@@ -3,7 +3,7 @@
 A universe of objects of the repository's own classes is built by lifting their constructors
 (sa/formlift.py): for every kind (mesh, function spaces, coefficients, cofunctions, constants, arguments,
 coarguments, geometric quantities, literals, zeros, indices, multi-indices, labels, variables, operators
-built through their constructors, integrals, forms) a base object, *one variant per constructor field*
+built through their constructors, integrals, forms, weighted sums of cofunctions) a base object, *one variant per constructor field*
 and an independently rebuilt duplicate.  `==`, `hash` and `repr` are the lifted methods of the classes.
 
   C13-equiv    == is reflexive, symmetric and transitive on the universe (all pairs / triples)
@@ -12,7 +12,8 @@ and an independently rebuilt duplicate.  `==`, `hash` and `repr` are the lifted 
   C13-pure     after all comparisons, repr, hash and the exact structure (operand tree) of every object
                are what they were before
   C13-evalrepr eval(repr(x)) - the repr string parsed and evaluated with the lifted constructors -
-               is equal to x
+               is equal to x (stated for expressions: weighted sums of base forms, whose repr `w*c + ...` is for reading
+               only, are part of every other clause but not of this one)
   C13-newargs  for classes with a parameterised __new__, cls.__new__(cls, *x.__getnewargs__()) is
                well-formed and gives an object equal to x (pickle protocol 2)
 """
